@@ -171,7 +171,7 @@ type Result<T> = std::result::Result<T, ProgramError>;
 /// # In this case, the instruction was expanded from the source program at index 1.
 /// assert sources == [1]
 /// ```
-#[derive(Clone, Debug, Default, PartialEq)]
+#[derive(Clone, Debug, Default)]
 #[cfg_attr(feature = "stubs", gen_stub_pyclass)]
 #[cfg_attr(
     feature = "python",
@@ -197,6 +197,32 @@ pub struct Program {
     // private field used for caching operations
     #[pyo3(get)]
     used_qubits: HashSet<Qubit>,
+}
+
+/// Two programs are equal when they hold the same definitions and the same body. The cached set of
+/// used qubits is derived data and takes no part in the comparison.
+impl PartialEq for Program {
+    fn eq(&self, other: &Self) -> bool {
+        let Self {
+            calibrations,
+            extern_pragma_map,
+            frames,
+            memory_regions,
+            waveforms,
+            gate_definitions,
+            circuits,
+            instructions,
+            used_qubits: _,
+        } = self;
+        *calibrations == other.calibrations
+            && *extern_pragma_map == other.extern_pragma_map
+            && *frames == other.frames
+            && *memory_regions == other.memory_regions
+            && *waveforms == other.waveforms
+            && *gate_definitions == other.gate_definitions
+            && *circuits == other.circuits
+            && *instructions == other.instructions
+    }
 }
 
 #[cfg_attr(feature = "stubs", gen_stub_pymethods)]
